@@ -1,10 +1,279 @@
 ------------------------------- MODULE OVMAscii -------------------------------
-EXTENDS OVMB
-AsciiParse(b) == [ok |-> FALSE, why |-> "stub"]
-AsciiMatches(A, m) == TRUE
-AsciiDiff(A, m) == ""
-AsciiDeclaresLargeSize(b) == TRUE
-AsciiMeshEq(m1, m2) == TRUE
-AsciiMeshDiff(m1, m2) == ""
-AsciiTokens(b) == b
+(***************************************************************************)
+(* Model of the OVM-ASCII (.ovm) file format, after                        *)
+(* documentation/subpages/ascii_file_format.docu and the example file it   *)
+(* includes (Cube_with_props.ovm), extended by what the description leaves *)
+(* to the implementation for property sections:                            *)
+(*                                                                         *)
+(*   OVM ASCII / Vertices n / x y z .. / Edges n / a b .. /                *)
+(*   Faces n / d he_1 .. he_d .. / Polyhedra n / d hf_1 .. hf_d ..         *)
+(*   { <K>Prop <type> "<name>" / one value per element }                   *)
+(*                                                                         *)
+(* The model is a token model (tokens = maximal runs of non-whitespace     *)
+(* bytes, keywords case-insensitive) with byte-level treatment of the two  *)
+(* value syntaxes that are not token based: strings (<len>:<bytes>) and    *)
+(* char / uchar (one raw byte per line).  Numbers are tokens; an integer   *)
+(* token is decoded when it has at most 9 digits (Huge otherwise);         *)
+(* floating point tokens are opaque.                                       *)
+(*                                                                         *)
+(*   AsciiParse(b)       decoded file or [ok |-> FALSE, why |-> ..]        *)
+(*   AsciiMatches(A, m)  the decoded file describes the mesh projection m  *)
+(*   AsciiMeshEq(a, b, exact)  two projections agree in everything the     *)
+(*                       format carries (defaults are not stored; floating *)
+(*                       point values only when the mesh is flagged as     *)
+(*                       exactly printable)                                *)
+(*   AsciiTokens(b)      the token sequence (second round trip: identical) *)
+(***************************************************************************)
+EXTENDS OVMB, SequencesExt
+
+IsWS(c) == c \in {9, 10, 11, 12, 13, 32}
+IsDigit(c) == c >= 48 /\ c <= 57
+Upper(t) == [i \in DOMAIN t |-> IF t[i] >= 97 /\ t[i] <= 122 THEN t[i] - 32 ELSE t[i]]
+Lower(t) == [i \in DOMAIN t |-> IF t[i] >= 65 /\ t[i] <= 90 THEN t[i] + 32 ELSE t[i]]
+
+TokStarts(b) == SetToSortSeq({i \in 1 .. Len(b) : ~IsWS(b[i]) /\ (i = 1 \/ IsWS(b[i - 1]))}, LAMBDA x, y : x < y)
+TokEnds(b)   == SetToSortSeq({i \in 1 .. Len(b) : ~IsWS(b[i]) /\ (i = Len(b) \/ IsWS(b[i + 1]))}, LAMBDA x, y : x < y)
+AsciiTokens(b) == LET S == TokStarts(b)  E == TokEnds(b) IN [k \in DOMAIN S |-> SubSeq(b, S[k], E[k])]
+
+(* numbers: [neg, mag]; mag = Huge: more than 9 digits; mag = -2: not an integer token *)
+NotNum == [neg |-> FALSE, mag |-> -2]
+RECURSIVE DecVal(_, _)
+DecVal(t, k) == IF k = 0 THEN 0 ELSE 10 * DecVal(t, k - 1) + (t[k] - 48)
+TokNum(t) ==
+  LET neg == t # <<>> /\ t[1] = 45
+      d   == IF neg THEN Tail(t) ELSE t
+  IN IF d = <<>> \/ \E i \in DOMAIN d : ~IsDigit(d[i]) THEN NotNum
+     ELSE IF Len(d) > 9 THEN [neg |-> neg, mag |-> Huge]
+     ELSE LET v == DecVal(d, Len(d)) IN [neg |-> neg /\ v # 0, mag |-> v]
+UMag(bs) ==    \* unsigned little-endian magnitude of 1, 2, 4, 8 bytes
+  IF Len(bs) = 1 THEN bs[1] ELSE IF Len(bs) = 2 THEN U16(bs, 1) ELSE IF Len(bs) = 4 THEN U32(bs, 1) ELSE U64(bs, 1)
+BytesNum(bs, signed) ==
+  IF signed /\ bs[Len(bs)] >= 128
+  THEN LET c == UMag([i \in DOMAIN bs |-> 255 - bs[i]]) IN
+       IF c = Huge \/ c = 2147483647 THEN [neg |-> TRUE, mag |-> Huge] ELSE [neg |-> TRUE, mag |-> c + 1]
+  ELSE [neg |-> FALSE, mag |-> UMag(bs)]
+NumEq(a, c) == a.mag # -2 /\ c.mag # -2 /\ (a.mag = Huge \/ c.mag = Huge \/ a = c)
+
+AsciiTypes == <<
+  [n |-> <<105,110,116>>, tag |-> "int32", cls |-> "si", w |-> 1],
+  [n |-> <<117,105,110,116>>, tag |-> "uint32", cls |-> "ui", w |-> 1],
+  [n |-> <<115,104,111,114,116>>, tag |-> "int16", cls |-> "si", w |-> 1],
+  [n |-> <<108,111,110,103>>, tag |-> "int64", cls |-> "si", w |-> 1],
+  [n |-> <<117,108,111,110,103>>, tag |-> "uint64", cls |-> "ui", w |-> 1],
+  [n |-> <<99,104,97,114>>, tag |-> "char", cls |-> "ch", w |-> 1],
+  [n |-> <<117,99,104,97,114>>, tag |-> "uint8", cls |-> "ch", w |-> 1],
+  [n |-> <<98,111,111,108>>, tag |-> "bool", cls |-> "ui", w |-> 1],
+  [n |-> <<102,108,111,97,116>>, tag |-> "float", cls |-> "fl", w |-> 1],
+  [n |-> <<100,111,117,98,108,101>>, tag |-> "double", cls |-> "fl", w |-> 1],
+  [n |-> <<115,116,114,105,110,103>>, tag |-> "string", cls |-> "st", w |-> 1],
+  [n |-> <<109,97,112,95,104,101,104,95,105,110,116>>, tag |-> "map_HEH_int", cls |-> "map", w |-> 1],
+  [n |-> <<118,101,99,116,111,114,95,100,111,117,98,108,101>>, tag |-> "vector_double", cls |-> "vfl", w |-> 1],
+  [n |-> <<118,101,99,116,111,114,95,118,104>>, tag |-> "vector_VH", cls |-> "vsi", w |-> 1],
+  [n |-> <<118,101,99,116,111,114,95,104,102,104>>, tag |-> "vector_HFH", cls |-> "vsi", w |-> 1],
+  [n |-> <<118,101,99,116,111,114,95,118,101,99,116,111,114,95,104,102,104>>, tag |-> "vector_vector_HFH", cls |-> "vvsi", w |-> 1],
+  [n |-> <<118,101,99,50,102>>, tag |-> "Vec2f", cls |-> "fl", w |-> 2],
+  [n |-> <<118,101,99,50,100>>, tag |-> "Vec2d", cls |-> "fl", w |-> 2],
+  [n |-> <<118,101,99,50,105>>, tag |-> "Vec2i", cls |-> "si", w |-> 2],
+  [n |-> <<118,101,99,50,117,105>>, tag |-> "Vec2ui", cls |-> "ui", w |-> 2],
+  [n |-> <<118,101,99,51,102>>, tag |-> "Vec3f", cls |-> "fl", w |-> 3],
+  [n |-> <<118,101,99,51,100>>, tag |-> "Vec3d", cls |-> "fl", w |-> 3],
+  [n |-> <<118,101,99,51,105>>, tag |-> "Vec3i", cls |-> "si", w |-> 3],
+  [n |-> <<118,101,99,51,117,105>>, tag |-> "Vec3ui", cls |-> "ui", w |-> 3],
+  [n |-> <<118,101,99,52,102>>, tag |-> "Vec4f", cls |-> "fl", w |-> 4],
+  [n |-> <<118,101,99,52,100>>, tag |-> "Vec4d", cls |-> "fl", w |-> 4],
+  [n |-> <<118,101,99,52,105>>, tag |-> "Vec4i", cls |-> "si", w |-> 4],
+  [n |-> <<118,101,99,52,117,105>>, tag |-> "Vec4ui", cls |-> "ui", w |-> 4]
+>>
+ATypeIndex(nameBytes) ==
+  LET c == {i \in DOMAIN AsciiTypes : AsciiTypes[i].n = nameBytes} IN IF c = {} THEN 0 ELSE CHOOSE i \in c : TRUE
+ATypeOfTag(tag) ==
+  LET c == {i \in DOMAIN AsciiTypes : AsciiTypes[i].tag = tag} IN IF c = {} THEN 0 ELSE CHOOSE i \in c : TRUE
+FloatTags == {"float", "double", "vector_double", "Vec2f", "Vec2d", "Vec3f", "Vec3d", "Vec4f", "Vec4d"}
+
+KwOVM == <<79,86,77>>   KwASCII == <<65,83,67,73,73>>   KwVERT == <<86,69,82,84,73,67,69,83>>
+KwEDGES == <<69,68,71,69,83>>   KwFACES == <<70,65,67,69,83>>   KwPOLY == <<80,79,76,89,72,69,68,82,65>>
+PropKw(t) ==
+  LET u == Upper(t) IN
+  CASE u = <<86,80,82,79,80>> -> "V" [] u = <<69,80,82,79,80>> -> "E" [] u = <<72,69,80,82,79,80>> -> "HE"
+    [] u = <<70,80,82,79,80>> -> "F" [] u = <<72,70,80,82,79,80>> -> "HF" [] u = <<67,80,82,79,80>> -> "C"
+    [] u = <<77,80,82,79,80>> -> "M" [] OTHER -> ""
+
+ABad(why) == [ok |-> FALSE, why |-> why]
+
+(* ------------------------------- parser --------------------------------- *)
+AsciiParse(b) ==
+  LET S  == TokStarts(b)
+      E  == TokEnds(b)
+      NT == Len(S)
+      T(k) == SubSeq(b, S[k], E[k])
+      N(k) == TokNum(T(k))
+      (* first token starting at or after byte offset o *)
+      TokFrom(o) == Cardinality({k \in 1 .. NT : S[k] < o}) + 1
+      (* n lists "d x_1 .. x_d" from token k: [ok, k, items] *)
+      RECURSIVE Lists(_, _)
+      Lists(k, n) ==
+        IF n = 0 THEN [ok |-> TRUE, k |-> k, items |-> <<>>]
+        ELSE IF k > NT THEN [ok |-> FALSE, k |-> k, items |-> <<>>]
+        ELSE LET d == N(k) IN
+             IF d.mag < 0 \/ d.neg \/ k + d.mag > NT THEN [ok |-> FALSE, k |-> k, items |-> <<>>]
+             ELSE LET it == [i \in 1 .. d.mag |-> N(k + i)]
+                      r  == Lists(k + 1 + d.mag, n - 1)
+                  IN [ok |-> r.ok /\ \A i \in 1 .. d.mag : it[i].mag >= 0 /\ ~it[i].neg, k |-> r.k,
+                      items |-> <<[i \in 1 .. d.mag |-> it[i].mag]>> \o r.items]
+      (* section "Keyword n" at token k: [ok, n] *)
+      Sect(k, kw) ==
+        IF k + 1 > NT \/ Upper(T(k)) # kw THEN [ok |-> FALSE, n |-> 0]
+        ELSE LET c == N(k + 1) IN IF c.mag < 0 \/ c.neg THEN [ok |-> FALSE, n |-> 0] ELSE [ok |-> TRUE, n |-> c.mag]
+      (* values of one property: n elements of ascii type index ty; tokens from k, raw bytes from o (line after the header) *)
+      (* result [ok, k (next token), vals] *)
+      RECURSIVE Strings(_, _)          \* n strings "<len>:<bytes>" starting at token k
+      Strings(k, n) ==
+        IF n = 0 THEN [ok |-> TRUE, k |-> k, vals |-> <<>>]
+        ELSE IF k > NT THEN [ok |-> FALSE, k |-> k, vals |-> <<>>]
+        ELSE LET s == S[k]
+                 colon == {i \in s .. Len(b) : b[i] = 58}
+             IN IF colon = {} THEN [ok |-> FALSE, k |-> k, vals |-> <<>>]
+                ELSE LET c == CHOOSE i \in colon : \A x \in colon : i <= x
+                         ln == TokNum(SubSeq(b, s, c - 1))
+                     IN IF ln.mag < 0 \/ ln.neg \/ c + ln.mag > Len(b) THEN [ok |-> FALSE, k |-> k, vals |-> <<>>]
+                        ELSE LET r == Strings(TokFrom(c + 1 + ln.mag), n - 1) IN
+                             [ok |-> r.ok, k |-> r.k, vals |-> <<SubSeq(b, c + 1, c + ln.mag)>> \o r.vals]
+      RECURSIVE Nested(_, _, _)        \* n values of class vsi / vvsi / map / vfl: flattened token numbers
+      Nested(k, n, cls) ==
+        IF n = 0 THEN [ok |-> TRUE, k |-> k, vals |-> <<>>]
+        ELSE IF k > NT THEN [ok |-> FALSE, k |-> k, vals |-> <<>>]
+        ELSE LET c == N(k) IN
+             IF c.mag < 0 \/ c.neg THEN [ok |-> FALSE, k |-> k, vals |-> <<>>]
+             ELSE IF cls = "vvsi" THEN
+                  LET inner == Lists(k + 1, c.mag)
+                      r == Nested(inner.k, n - 1, cls)
+                  IN [ok |-> inner.ok /\ r.ok, k |-> r.k,
+                      vals |-> << <<c>> \o [i \in 1 .. (inner.k - k - 1) |-> N(k + i)] >> \o r.vals]
+             ELSE LET cnt == IF cls = "map" THEN 2 * c.mag ELSE c.mag IN
+                  IF k + cnt > NT THEN [ok |-> FALSE, k |-> k, vals |-> <<>>]
+                  ELSE LET r == Nested(k + 1 + cnt, n - 1, cls) IN
+                       [ok |-> r.ok, k |-> r.k,
+                        vals |-> << IF cls = "vfl" THEN <<c>> ELSE <<c>> \o [i \in 1 .. cnt |-> N(k + i)] >> \o r.vals]
+      Values(k, o, n, ty) ==
+        LET t == AsciiTypes[ty] IN
+        IF t.cls \in {"si", "ui"} THEN
+             IF k + n * t.w - 1 > NT THEN [ok |-> FALSE, k |-> k, vals |-> <<>>]
+             ELSE [ok |-> TRUE, k |-> k + n * t.w, vals |-> [i \in 1 .. n |-> [j \in 1 .. t.w |-> N(k + (i - 1) * t.w + j - 1)]]]
+        ELSE IF t.cls = "fl" THEN
+             IF k + n * t.w - 1 > NT THEN [ok |-> FALSE, k |-> k, vals |-> <<>>]
+             ELSE [ok |-> TRUE, k |-> k + n * t.w, vals |-> [i \in 1 .. n |-> <<>>]]
+        ELSE IF t.cls = "ch" THEN      \* one raw byte, then the line end
+             IF o + 2 * n - 1 > Len(b) \/ \E i \in 1 .. n : b[o + 2 * i - 1] # 10 THEN [ok |-> FALSE, k |-> k, vals |-> <<>>]
+             ELSE [ok |-> TRUE, k |-> TokFrom(o + 2 * n), vals |-> [i \in 1 .. n |-> <<b[o + 2 * (i - 1)]>>]]
+        ELSE IF t.cls = "st" THEN Strings(k, n)
+        ELSE Nested(k, n, t.cls)
+      RECURSIVE Props(_, _)
+      Props(k, cnt) ==
+        IF k > NT THEN [ok |-> TRUE, why |-> "", props |-> <<>>]
+        ELSE IF k + 2 > NT THEN [ok |-> FALSE, why |-> "TruncatedPropertyHeader", props |-> <<>>]
+        ELSE LET kind == PropKw(T(k))
+                 ty   == ATypeIndex(Lower(T(k + 1)))
+                 eol  == LET nl == {i \in E[k + 1] .. Len(b) : b[i] = 10} IN IF nl = {} THEN Len(b) + 1 ELSE CHOOSE i \in nl : \A x \in nl : i <= x
+                 qs   == {i \in E[k + 1] + 1 .. eol - 1 : b[i] = 34}
+             IN IF kind = "" THEN [ok |-> FALSE, why |-> "PropertyKeyword", props |-> <<>>]
+                ELSE IF ty = 0 THEN [ok |-> FALSE, why |-> "PropertyTypeName", props |-> <<>>]
+                ELSE IF Cardinality(qs) < 2 THEN [ok |-> FALSE, why |-> "PropertyNameQuotes", props |-> <<>>]
+                ELSE LET q1 == CHOOSE i \in qs : \A x \in qs : i <= x
+                         q2 == CHOOSE i \in qs : \A x \in qs : i >= x
+                         v  == Values(TokFrom(eol), eol + 1, cnt[kind], ty)
+                     IN IF ~v.ok THEN [ok |-> FALSE, why |-> "PropertyValues", props |-> <<>>]
+                        ELSE LET r == Props(v.k, cnt) IN
+                             [ok |-> r.ok, why |-> r.why,
+                              props |-> <<[k |-> kind, name |-> SubSeq(b, q1 + 1, q2 - 1), t |-> AsciiTypes[ty].tag, vals |-> v.vals]>> \o r.props]
+  IN
+  IF NT < 2 \/ Upper(T(1)) # KwOVM \/ Upper(T(2)) # KwASCII THEN ABad("Header")
+  ELSE LET sv == Sect(3, KwVERT) IN
+  IF ~sv.ok THEN ABad("VerticesSection")
+  ELSE LET ke == 5 + 3 * sv.n IN
+  IF ke - 1 > NT THEN ABad("VertexLines")
+  ELSE LET se == Sect(ke, KwEDGES) IN
+  IF ~se.ok THEN ABad("EdgesSection")
+  ELSE LET kf == ke + 2 + 2 * se.n IN
+  IF kf - 1 > NT THEN ABad("EdgeLines")
+  ELSE LET edges == [i \in 1 .. se.n |-> <<N(ke + 2 * i), N(ke + 2 * i + 1)>>]
+           sf == Sect(kf, KwFACES) IN
+  IF \E i \in 1 .. se.n : \E j \in 1 .. 2 : edges[i][j].mag < 0 \/ edges[i][j].neg THEN ABad("EdgeLines")
+  ELSE IF ~sf.ok THEN ABad("FacesSection")
+  ELSE LET fl == Lists(kf + 2, sf.n) IN
+  IF ~fl.ok THEN ABad("FaceLines")
+  ELSE LET sc == Sect(fl.k, KwPOLY) IN
+  IF ~sc.ok THEN ABad("PolyhedraSection")
+  ELSE LET cl == Lists(fl.k + 2, sc.n) IN
+  IF ~cl.ok THEN ABad("PolyhedraLines")
+  ELSE LET cnt == [V |-> sv.n, E |-> se.n, F |-> sf.n, C |-> sc.n, HE |-> 2 * se.n, HF |-> 2 * sf.n, M |-> 1]
+           pr == Props(cl.k, cnt) IN
+  IF ~pr.ok THEN ABad(pr.why)
+  ELSE [ok |-> TRUE, nv |-> sv.n, ne |-> se.n, nf |-> sf.n, nc |-> sc.n,
+        pos |-> [i \in 1 .. sv.n |-> <<T(5 + 3 * (i - 1)), T(6 + 3 * (i - 1)), T(7 + 3 * (i - 1))>>],
+        edges |-> [i \in 1 .. se.n |-> <<edges[i][1].mag, edges[i][2].mag>>],
+        faces |-> fl.items, cells |-> cl.items, props |-> pr.props]
+
+(* ----------------------- file against projection ----------------------- *)
+AsciiProps(ps) == SelectSeq(ps, LAMBDA p : ATypeOfTag(p.t) # 0)
+(* canonical value bytes -> what the file carries for them *)
+SplitNum(bs, w, signed) == LET s == Len(bs) \div w IN [j \in 1 .. w |-> BytesNum(SubSeq(bs, (j - 1) * s + 1, j * s), signed)]
+ValueMatches(t, fv, bs) ==
+  CASE t.cls = "si" -> Len(bs) % t.w = 0 /\ \A j \in 1 .. t.w : NumEq(fv[j], SplitNum(bs, t.w, TRUE)[j])
+    [] t.cls = "ui" -> Len(bs) % t.w = 0 /\ \A j \in 1 .. t.w : NumEq(fv[j], SplitNum(bs, t.w, FALSE)[j])
+    [] t.cls = "fl" -> TRUE
+    [] t.cls = "ch" -> fv = bs
+    [] t.cls = "st" -> fv = bs
+    [] t.cls = "vfl" -> Len(bs) >= 4 /\ NumEq(fv[1], BytesNum(SubSeq(bs, 1, 4), FALSE))
+    [] OTHER -> Len(bs) % 4 = 0 /\ Len(fv) = Len(bs) \div 4
+                /\ \A j \in 1 .. Len(fv) : NumEq(fv[j], BytesNum(SubSeq(bs, 4 * j - 3, 4 * j), TRUE))
+PropMatches(fp, mp) ==
+  /\ fp.k = mp.k /\ fp.name = mp.name /\ fp.t = mp.t /\ Len(fp.vals) = Len(mp.vals)
+  /\ \A i \in DOMAIN fp.vals : ValueMatches(AsciiTypes[ATypeOfTag(fp.t)], fp.vals[i], mp.vals[i])
+
+AsciiDiff(A, m) ==
+  IF A.nv # m.nv \/ A.ne # m.ne \/ A.nf # m.nf \/ A.nc # m.nc THEN "counts"
+  ELSE IF A.edges # m.edges THEN "edges"
+  ELSE IF A.faces # m.faces THEN "faces"
+  ELSE IF A.cells # m.cells THEN "cells"
+  ELSE LET mp == AsciiProps(m.props) IN
+       IF Len(A.props) # Len(mp) THEN "property count"
+       ELSE IF \E i \in DOMAIN A.props : ~\E j \in DOMAIN mp : PropMatches(A.props[i], mp[j]) THEN "property values"
+       ELSE IF \E j \in DOMAIN mp : ~\E i \in DOMAIN A.props : PropMatches(A.props[i], mp[j]) THEN "property values"
+       ELSE ""
+AsciiMatches(A, m) == AsciiDiff(A, m) = ""
+
+(* --------------------- projection against projection -------------------- *)
+AsciiPropSetOf(ps, exact) ==
+  LET a == AsciiProps(ps) IN
+  {[k |-> a[i].k, name |-> a[i].name, t |-> a[i].t, vals |-> IF exact \/ a[i].t \notin FloatTags THEN a[i].vals ELSE <<>>] : i \in DOMAIN a}
+HasWhitespaceChar(ps) ==
+  \E i \in DOMAIN ps : ps[i].t \in {"char", "uint8"} /\ \E j \in DOMAIN ps[i].vals : IsWS(ps[i].vals[j][1])
+AsciiMeshDiff(m1, m2, exact) ==
+  IF m1.nv # m2.nv \/ m1.ne # m2.ne \/ m1.nf # m2.nf \/ m1.nc # m2.nc THEN "counts"
+  ELSE IF m1.edges # m2.edges THEN "edges"
+  ELSE IF m1.faces # m2.faces THEN "faces"
+  ELSE IF m1.cells # m2.cells THEN "cells"
+  ELSE IF exact /\ m1.pos # m2.pos THEN "positions"
+  ELSE IF AsciiPropSetOf(m1.props, exact) # AsciiPropSetOf(m2.props, exact) THEN
+       (IF HasWhitespaceChar(m1.props) THEN "properties:whitespace-char-value"
+        ELSE LET d == (AsciiPropSetOf(m1.props, exact) \ AsciiPropSetOf(m2.props, exact)) \cup (AsciiPropSetOf(m2.props, exact) \ AsciiPropSetOf(m1.props, exact))
+             IN "properties:" \o (CHOOSE p \in d : TRUE).t)
+  ELSE ""
+AsciiMeshEq(m1, m2, exact) == AsciiMeshDiff(m1, m2, exact) = ""
+
+(* two files carry the same content: token-identical up to the order of the property sections *)
+(* (the writer enumerates properties in an unspecified order)                                     *)
+AsciiSameFile(b1, b2) ==
+  AsciiTokens(b1) = AsciiTokens(b2)
+  \/ LET A1 == AsciiParse(b1)  A2 == AsciiParse(b2) IN
+     /\ A1.ok /\ A2.ok
+     /\ [A1 EXCEPT !.props = <<>>] = [A2 EXCEPT !.props = <<>>]
+     /\ {A1.props[i] : i \in DOMAIN A1.props} = {A2.props[i] : i \in DOMAIN A2.props}
+
+(* the text format has no type field: a mesh can be read into a specialised mesh type iff its valences fit *)
+AsciiCompatible(m, mt) ==
+  mt = "poly" \/ (mt = "tet" /\ AllFaceVal(m, 3) /\ AllCellVal(m, 4)) \/ (mt = "hex" /\ AllFaceVal(m, 4) /\ AllCellVal(m, 6))
+
+(* a reader may fail with an allocation error only if the text declares a large size *)
+AsciiDeclaresLargeSize(b) == \E i \in 1 .. Len(b) - 7 : \A j \in 0 .. 7 : IsDigit(b[i + j])
 =============================================================================
